@@ -14,40 +14,40 @@ package linking
 //@ pure func protoOf(l LinkId) datamodel.LinkPrototype
 
 //@ interface datamodel.Link.Binary() (r)
-//@   assigns nothing
+//@   assigns[C20] nothing
 //@   ensures r == lbin(recv.lid)
 //@ interface datamodel.Link.Prototype() (lp)
-//@   assigns nothing
+//@   assigns[C20] nothing
 //@   ensures lp != nil && lp == protoOf(recv.lid)
 //@ interface datamodel.LinkPrototype.BuildLink(hashsum) (l)
-//@   assigns nothing
+//@   assigns[C20] nothing
 //@   ensures l != nil && l.lid == mklid(recv, hash.dg(hashsum))
 
 // The configurable parts of a link system.
 //@ functype LinkSystem.DecoderChooser(lnk) (d, err)
-//@   assigns nothing
+//@   assigns[C20] nothing
 //@   ensures err == nil ==> d != nil
 //@ pure func chosenEnc(chooser Func, lp datamodel.LinkPrototype) Func
 //@ pure func algOf(chooser Func, lp datamodel.LinkPrototype) hash.Alg
 //@ pure func encOf(e Func, v datamodel.Val) io.ByteSeq
 //@ functype LinkSystem.EncoderChooser(lp) (e, err)
-//@   assigns nothing
+//@   assigns[C20] nothing
 //@   ensures err == nil ==> e != nil && e == chosenEnc(recv, lp)
 //@ functype LinkSystem.HasherChooser(lp) (h, err)
-//@   assigns foreign, h.fed
+//@   assigns[C20] foreign, h.fed
 //@   ensures err == nil ==> h != nil && fresh(h) && h.fed == 0 && hash.halg(h) == algOf(recv, lp) && h.mwa == nil
 //@ functype BlockReadOpener(lnkCtx, lnk) (r, err)
-//@   assigns foreign, r.pos
+//@   assigns[C20] foreign, r.pos
 //@   ensures err == nil ==> r != nil && fresh(r) && r.pos == 0 && r.teesink == nil
 //@ functype BlockWriteOpener(lnkCtx) (w, c, err)
-//@   assigns foreign, w.fed
+//@   assigns[C20] foreign, w.fed
 //@   ensures err == nil ==> w != nil && c != nil && w.fed == 0
 //@ ghost field BlockWriteCommitter.calls mathint mutable
 //@ functype BlockWriteCommitter(lnk) (err)
-//@   assigns foreign, recv.calls
+//@   assigns[C20] foreign, recv.calls
 //@   ensures recv.calls == old(recv.calls) + 1
 //@ functype NodeReifier(lnkCtx, n, lsys) (r, err)
-//@   assigns nothing
+//@   assigns[C20] nothing
 //@   ensures err == nil ==> r != nil
 
 // A decoder reads a prefix of what remains in the reader it is given (through the tee, if it is
@@ -55,7 +55,7 @@ package linking
 // succeeds it has consumed the stream to its end (proved for the bundled decoders under C06).
 //@ functype codec.Decoder(na, r) (err)
 //@   requires na != nil && r != nil
-//@   assigns foreign, r.pos, r.teesrc.pos, r.teesink.fed, datamodel.slot(na)
+//@   assigns[C20] foreign, r.pos, r.teesrc.pos, r.teesink.fed, datamodel.slot(na)
 //@   ensures err == nil ==> datamodel.slotdone(na, na.out)
 //@   ensures r.teesink == nil ==> old(r.pos) <= r.pos && r.pos <= io.blen(r.data) && (err == nil ==> r.pos == io.blen(r.data))
 //@   ensures r.teesink != nil ==> old(r.teesrc.pos) <= r.teesrc.pos && r.teesrc.pos <= io.blen(r.teesrc.data)
@@ -64,7 +64,7 @@ package linking
 // two-way io.MultiWriter both sinks receive it.
 //@ functype codec.Encoder(n, w) (err)
 //@   requires n != nil && w != nil
-//@   assigns foreign, w.fed, w.fedof, w.mwa.fed, w.mwa.fedof, w.mwb.fed, w.mwb.fedof
+//@   assigns[C20] foreign, w.fed, w.fedof, w.mwa.fed, w.mwa.fedof, w.mwb.fed, w.mwb.fedof
 //@   ensures err == nil && old(w.fed) == 0 ==> w.fedof == encOf(recv, n.val) && w.fed == io.blen(encOf(recv, n.val))
 //@   ensures err == nil && w.mwa != nil && old(w.mwa.fed) == 0 ==> w.mwa.fedof == encOf(recv, n.val) && w.mwa.fed == io.blen(encOf(recv, n.val))
 //@   ensures err == nil && w.mwb != nil && old(w.mwb.fed) == 0 ==> w.mwb.fedof == encOf(recv, n.val) && w.mwb.fed == io.blen(encOf(recv, n.val))
@@ -73,7 +73,7 @@ package linking
 
 //@ func (*LinkSystem).Fill(lnkCtx, lnk, na) (err)
 //@   requires lsys != nil && lnk != nil && na != nil && lsys.DecoderChooser != nil && lsys.HasherChooser != nil
-//@   assigns foreign, ghostall("io.Reader.pos"), ghostall("io.Writer.fed"), ghostall("io.Writer.fedof"), ghostall("BlockWriteCommitter.calls"), datamodel.slot(na)
+//@   assigns[C20] foreign, ghostall("io.Reader.pos"), ghostall("io.Writer.fed"), ghostall("io.Writer.fedof"), ghostall("BlockWriteCommitter.calls"), datamodel.slot(na)
 //@   ensures[C16] err == nil ==> datamodel.slotdone(na, na.out)
 //@   ensures[C06] !lsys.TrustedStorage && err == nil ==> decodeErr == nil && reader.pos == io.blen(reader.data) && hasher.fed == io.blen(reader.data) && hasher.fedof == reader.data
 //@   ensures[C06] !lsys.TrustedStorage && err == nil ==> lbin(lnk2.lid) == lbin(lnk.lid) && lnk2.lid == mklid(protoOf(lnk.lid), hash.hd(hash.halg(hasher), reader.data, io.blen(reader.data)))
@@ -82,7 +82,7 @@ package linking
 
 //@ func (*LinkSystem).LoadRaw(lnkCtx, lnk) (r, err)
 //@   requires lsys != nil && lnk != nil && lsys.HasherChooser != nil
-//@   assigns foreign, ghostall("io.Reader.pos"), ghostall("io.Writer.fed"), ghostall("io.Writer.fedof"), ghostall("BlockWriteCommitter.calls")
+//@   assigns[C20] foreign, ghostall("io.Reader.pos"), ghostall("io.Writer.fed"), ghostall("io.Writer.fedof"), ghostall("BlockWriteCommitter.calls")
 //@   ensures[C06] err == nil ==> reader.pos == io.blen(reader.data) && hasher.fed == io.blen(reader.data) && hasher.fedof == reader.data
 //@   ensures[C06] err == nil ==> lbin(lnk2.lid) == lbin(lnk.lid) && lnk2.lid == mklid(protoOf(lnk.lid), hash.hd(hash.halg(hasher), reader.data, io.blen(reader.data)))
 //@   ensures[C06] err == nil ==> len(r) == io.blen(reader.data) && hash.bsrc(r) == reader.data
@@ -92,12 +92,12 @@ package linking
 
 //@ func (*LinkSystem).ComputeLink(lp, n) (l, err)
 //@   requires lsys != nil && lp != nil && n != nil && lsys.EncoderChooser != nil && lsys.HasherChooser != nil
-//@   assigns foreign, ghostall("io.Reader.pos"), ghostall("io.Writer.fed"), ghostall("io.Writer.fedof"), ghostall("BlockWriteCommitter.calls")
+//@   assigns[C20] foreign, ghostall("io.Reader.pos"), ghostall("io.Writer.fed"), ghostall("io.Writer.fedof"), ghostall("BlockWriteCommitter.calls")
 //@   ensures[C05] err == nil ==> l != nil && l.lid == mklid(lp, hash.hd(algOf(lsys.HasherChooser, lp), encOf(chosenEnc(lsys.EncoderChooser, lp), n.val), io.blen(encOf(chosenEnc(lsys.EncoderChooser, lp), n.val))))
 
 //@ func (*LinkSystem).Store(lnkCtx, lp, n) (l, err)
 //@   requires lsys != nil && lp != nil && n != nil && lsys.EncoderChooser != nil && lsys.HasherChooser != nil
-//@   assigns foreign, ghostall("io.Reader.pos"), ghostall("io.Writer.fed"), ghostall("io.Writer.fedof"), ghostall("BlockWriteCommitter.calls")
+//@   assigns[C20] foreign, ghostall("io.Reader.pos"), ghostall("io.Writer.fed"), ghostall("io.Writer.fedof"), ghostall("BlockWriteCommitter.calls")
 //@   before commitFn assert[C05,C06] carg0 == lnk && writer.fedof == encOf(chosenEnc(lsys.EncoderChooser, lp), n.val) && writer.fed == io.blen(encOf(chosenEnc(lsys.EncoderChooser, lp), n.val))
 //@   ensures[C05] l != nil ==> l.lid == mklid(lp, hash.hd(algOf(lsys.HasherChooser, lp), encOf(chosenEnc(lsys.EncoderChooser, lp), n.val), io.blen(encOf(chosenEnc(lsys.EncoderChooser, lp), n.val))))
 //@   ensures[C05,C16] err == nil ==> l != nil
@@ -108,14 +108,14 @@ package linking
 
 //@ func (*LinkSystem).Load(lnkCtx, lnk, np) (r, err)
 //@   requires lsys != nil && lnk != nil && np != nil && lsys.DecoderChooser != nil && lsys.HasherChooser != nil
-//@   assigns foreign, ghostall("io.Reader.pos"), ghostall("io.Writer.fed"), ghostall("io.Writer.fedof"), ghostall("BlockWriteCommitter.calls")
+//@   assigns[C20] foreign, ghostall("io.Reader.pos"), ghostall("io.Writer.fed"), ghostall("io.Writer.fedof"), ghostall("BlockWriteCommitter.calls")
 //@   before Build assert[C06] err == nil
 //@   ensures[C06] err != nil && lsys.NodeReifier == nil ==> r == nil
 //@   ensures err == nil ==> r != nil
 
 //@ func (*LinkSystem).LoadPlusRaw(lnkCtx, lnk, np) (r, raw, err)
 //@   requires lsys != nil && lnk != nil && np != nil && lsys.DecoderChooser != nil && lsys.HasherChooser != nil
-//@   assigns foreign, ghostall("io.Reader.pos"), ghostall("io.Writer.fed"), ghostall("io.Writer.fedof"), ghostall("BlockWriteCommitter.calls")
+//@   assigns[C20] foreign, ghostall("io.Reader.pos"), ghostall("io.Writer.fed"), ghostall("io.Writer.fedof"), ghostall("BlockWriteCommitter.calls")
 //@   before NewBuffer assert[C06] err == nil && carg0 == block
 //@   before Build assert[C06] err == nil
 //@   ensures[C06] err != nil && lsys.NodeReifier == nil ==> r == nil
